@@ -590,4 +590,8 @@ def run(chk):
                                                ("emit_core", "src/ctxt.rs")], 3)
     from . import witness
     witness.witness_rule(chk, "C03", 6)
+    if not getattr(chk, "_overlay", None):
+        common.linear_types_rule(chk, P, "C03.R5:frames-are-linear", "a frame and its enter guard cannot be copied (a copy would exit / close the scope twice)",
+                                 {"emit::frame::Frame": "each copy closes its scope on drop and can be entered independently: exits no longer pair with enters",
+                                  "emit::frame::EnterGuard": "each copy exits on drop: the frame would be exited twice for one enter"})
     return chk
